@@ -413,6 +413,12 @@ func (c *fnCtx) execSlice(st *State, in *ssa.Slice) {
 		c.sliceCheck(st, goal, in.Pos())
 		n := c.define("sub", "Str", app("ssub", x.S, c.idxToInt(lo), c.idxToInt(hi)))
 		c.assume(st, sEq(c.lenOfStr(SymVal{K: KStr, S: n}), c.subInt(hi, lo)))
+		if !c.bv {
+			// the characters of s[lo:hi] are those of s from lo on
+			k := c.fresh("qk")
+			c.assume(st, fmt.Sprintf("(forall ((%s Int)) (! (=> (and (<= 0 %s) (< %s %s)) (= (sat %s %s) (sat %s (+ %s %s)))) :pattern ((sat %s %s))))",
+				k, k, k, c.subInt(hi, lo), n, k, x.S, c.idxToInt(lo), k, n, k))
+		}
 		c.set(in, SymVal{K: KStr, S: n})
 	case *types.Pointer: // pointer to array
 		arr := xt.Elem().Underlying().(*types.Array)
@@ -588,6 +594,9 @@ func (c *fnCtx) unbox(st *State, x string, t types.Type) SymVal {
 	case KFloat:
 		return SymVal{K: KFloat, T: t, S: app("unbox_fp", app("ipay", x))}
 	case KStr:
+		if !strings.Contains(x, "!q") && !c.bv {
+			c.assume(st, app("<=", "0", app("slen", app("unbox_str", app("ipay", x)))))
+		}
 		return SymVal{K: KStr, T: t, S: app("unbox_str", app("ipay", x))}
 	case KOpq:
 		return SymVal{K: KOpq, T: t, S: app("ipay", x)}
